@@ -208,6 +208,114 @@ Proof.
   destruct ds; cbn; rewrite N.eqb_refl; reflexivity.
 Qed.
 
+(* ---- IXFR difference sequences over several messages ---- *)
+Lemma prefix_of_map_other ys : forall a b, a ++ b = map Other ys -> exists ys', a = map Other ys'.
+Proof.
+  induction ys as [|y ys IH]; intros a b E; cbn [map] in E.
+  - apply app_eq_nil in E as [-> _]. exists []. reflexivity.
+  - destruct a as [|r a]; [exists []; reflexivity|]. cbn in E. inversion E as [[E1 E2]].
+    destruct (IH a b E2) as [ys' ->]. exists (y :: ys'). reflexivity.
+Qed.
+
+Lemma prefix_of_section xs n ys : forall a b,
+  a ++ b = map Other xs ++ Soa n :: map Other ys ->
+  (exists xs', a = map Other xs') \/ (exists ys', a = map Other xs ++ Soa n :: map Other ys').
+Proof.
+  induction xs as [|x xs IH]; intros a b E; cbn [map app] in E.
+  - destruct a as [|r a]; [left; exists []; reflexivity|]. cbn in E. inversion E as [[E1 E2]].
+    destruct (prefix_of_map_other ys a b E2) as [ys' ->]. right. exists ys'. reflexivity.
+  - destruct a as [|r a]; [left; exists []; reflexivity|]. cbn in E. inversion E as [[E1 E2]].
+    destruct (IH a b E2) as [[xs' ->]|[ys' ->]].
+    + left. exists (x :: xs'). reflexivity.
+    + right. exists ys'. reflexivity.
+Qed.
+
+Lemma cfold_diffs_prefix s ds : forall st a b,
+  a ++ b = concat (map diff_seq ds) ->
+  (st = CIxfrFirstSoa s \/ st = CIxfrSecondDiffSoa s) ->
+  (forall d, In d ds -> soa_serial (d_old d) <> s) ->
+  exists st', cfold st a = Some st' /\ ((a = [] /\ st' = st) \/ waiting st' = true).
+Proof.
+  induction ds as [|d ds IH]; intros st a b E Hst Hne; cbn [map concat] in E.
+  - apply app_eq_nil in E as [-> _]. exists st. split; [reflexivity|left; auto].
+  - assert (Es : (s =? soa_serial (d_old d)) = false).
+    { destruct (N.eqb_spec s (soa_serial (d_old d))); [|reflexivity]. exfalso. apply (Hne d (or_introl eq_refl)). auto. }
+    assert (S1 : client_rec st (Soa (d_old d)) = inl (CIxfrFirstDiffSoa s)).
+    { destruct Hst as [->| ->]; cbn; rewrite Es; reflexivity. }
+    apply app_eq_app in E as [m [[E1 E2]|[E1 E2]]].
+    + (* past this difference sequence *)
+      subst a.
+      assert (Fd : cfold st (diff_seq d) = Some (CIxfrSecondDiffSoa s)).
+      { pose proof (cfold_diffs s [d] st Hst (fun d' H => Hne d' (or_introl (match H with or_introl e => e | or_intror f => match f with end end)))) as Q.
+        cbn [map concat] in Q. rewrite app_nil_r in Q. exact Q. }
+      destruct (IH (CIxfrSecondDiffSoa s) m b (eq_sym E2) (or_intror eq_refl) (fun d' H => Hne d' (or_intror H)))
+        as [st' [F W]].
+      exists st'. split; [rewrite cfold_app, Fd; exact F|].
+      right. destruct W as [[-> ->]|W]; [reflexivity|exact W].
+    + (* inside this difference sequence *)
+      destruct a as [|r a]; [exists st; split; [reflexivity|left; auto]|].
+      unfold diff_seq in E1. cbn [app] in E1. inversion E1 as [[Er Et]]. subst r.
+      cbn [cfold]. rewrite S1.
+      destruct (prefix_of_section _ _ _ a m (eq_sym Et)) as [[xs' ->]|[ys' ->]].
+      * exists (CIxfrFirstDiffSoa s). split; [apply cfold_others_first|right; reflexivity].
+      * exists (CIxfrSecondDiffSoa s). split; [|right; reflexivity].
+        rewrite cfold_app, cfold_others_first. cbn [cfold client_rec]. apply cfold_others_second.
+Qed.
+
+Theorem client_agrees_ixfr snew ds ms cs :
+  (forall d, In d ds -> soa_serial (d_old d) <> soa_serial snew) ->
+  packs 251 ms cs -> concat cs = ixfr_seq snew ds -> ~ lone_soa_first Ixfr cs ->
+  client_stream (client_init 251) ms = (repeat true (length ms), true).
+Proof.
+  intros Hne Hp Hc Hl.
+  set (s := soa_serial snew) in *.
+  set (D := concat (map diff_seq ds)) in *.
+  assert (Full : cfold (CIxfrFirstSoa s) (D ++ [Soa snew]) = Some CDone).
+  { rewrite cfold_app. unfold D. rewrite (cfold_diffs s ds _ (or_introl eq_refl) Hne).
+    destruct ds; cbn; unfold s; rewrite N.eqb_refl; reflexivity. }
+  assert (Pre : forall a b, a ++ b = D ++ [Soa snew] -> a <> [] -> b <> [] ->
+            exists st', cfold (CIxfrFirstSoa s) a = Some st' /\ waiting st' = true).
+  { intros a b E Ha Hb.
+    assert (P : exists m, a ++ m = D).
+    { apply app_eq_app in E as [m [[E1 E2]|[E1 E2]]].
+      - destruct m as [|x m]; [exists []; rewrite app_nil_r in E1 |- *; auto|].
+        cbn in E2. injection E2 as _ E3. symmetry in E3. apply app_eq_nil in E3 as [_ E3]. contradiction.
+      - exists m. auto. }
+    destruct P as [m Em].
+    destruct (cfold_diffs_prefix s ds (CIxfrFirstSoa s) a m Em (or_introl eq_refl) Hne) as [st' [F [[Ea _]|W]]];
+      [contradiction|eauto]. }
+  destruct ms as [|m ms], cs as [|c cs]; try contradiction.
+  destruct Hp as [[_ [Hi Hn]] [_ Hrest]].
+  cbn [concat] in Hc. unfold ixfr_seq in Hc. fold D in Hc.
+  destruct c as [|r c]; [contradiction|]. cbn [app] in Hc. inversion Hc as [[Hr Htl]]. subst r.
+  cbn [client_stream length repeat]. unfold client_init, qtype_axfr. cbn [N.eqb Pos.eqb].
+  destruct cs as [|c2 cs].
+  - inversion Hrest; subst. cbn [concat] in Htl. rewrite app_nil_r in Htl.
+    unfold client_msg. rewrite Hi. cbn [map client_items client_rec]. fold s.
+    rewrite (client_items_cfold c (CIxfrFirstSoa s) CDone); [reflexivity|]. rewrite Htl. exact Full.
+  - assert (Hc2 : concat (c2 :: cs) <> []).
+    { inversion Hrest as [|? ? ? ? [_ [_ Hne2]] _]; subst. cbn [concat]. intros E.
+      apply app_eq_nil in E as [E _]. contradiction. }
+    assert (Hcne : c <> []).
+    { intros ->. apply Hl. split; [reflexivity|]. exists (Soa snew), (c2 :: cs). split; [reflexivity|discriminate]. }
+    destruct (Pre c (concat (c2 :: cs)) Htl Hcne Hc2) as [st1 [F1 W1]].
+    unfold client_msg. rewrite Hi. cbn [map client_items client_rec]. fold s.
+    rewrite (client_items_cfold c _ _ F1).
+    assert (R1 : client_items st1 [] = (false, st1)) by (destruct st1; try discriminate; reflexivity).
+    rewrite R1.
+    assert (N1 : is_cerror st1 = false) by (destruct st1; try discriminate; reflexivity).
+    rewrite N1. cbn [negb].
+    rewrite (client_stream_later ms (c2 :: cs) st1 Hrest ltac:(discriminate) W1).
+    + reflexivity.
+    + rewrite <- Htl, cfold_app, F1 in Full. exact Full.
+    + intros a b E Hb.
+      destruct (Pre (c ++ a) b) as [st2 [F2 W2]].
+      * rewrite <- app_assoc, E. exact Htl.
+      * intros Q. apply app_eq_nil in Q as [Q _]. contradiction.
+      * exact Hb.
+      * rewrite cfold_app, F1 in F2. eauto.
+Qed.
+
 (* where they differ (not on valid transfers): the client compares serials, the
    interpreter whole SOA records.  A closing SOA with the opening serial but
    other fields ends the stream for the client and not for the interpreter (the
